@@ -10,19 +10,19 @@ import (
 // the spelling of collection constructors (one line / several lines with trailing
 // comma) and quoted-string versus heredoc spelling of strings that end in a newline.
 type NStyle struct {
-	Indent     string
-	Eq         string
-	NL         string
-	Blank      bool // blank lines between items
-	Comments   bool
-	MultiColl  bool // collections over several lines with trailing commas
-	Heredoc    bool // strings ending in "\n" (directly the value of an attribute) as heredoc
+	Indent    string
+	Eq        string
+	NL        string
+	Blank     bool // blank lines between items
+	Comments  bool
+	MultiColl bool // collections over several lines with trailing commas
+	Heredoc   bool // strings ending in "\n" (directly the value of an attribute) as heredoc
 	// HeredocInterp: the first character of such a heredoc is written as an interpolation
 	// of a string literal (${"h"}...): a template sequence is the first token of the body
 	HeredocInterp bool
-	OneLine    bool // blocks with at most one attribute (and no nested block) on one line
-	ColonKeys  bool // object constructor with ":" and quoted keys
-	UniEscapes bool // non-ASCII as \u escapes in quoted strings
+	OneLine       bool // blocks with at most one attribute (and no nested block) on one line
+	ColonKeys     bool // object constructor with ":" and quoted keys
+	UniEscapes    bool // non-ASCII as \u escapes in quoted strings
 }
 
 var canonStyle = NStyle{Indent: "  ", Eq: " = ", NL: "\n"}
